@@ -46,7 +46,7 @@ theorem printAll_lines (prev : Labels) (rs : List Result) :
 /-! ### bufio.ScanLines on terminated lines -/
 
 theorem scanLinesGo_line (cur l rest : Bytes) (h : ∀ c ∈ l, c ≠ nl) :
-    scanLinesGo cur (l ++ nl :: rest) = dropCR (cur ++ l) :: scanLinesGo [] rest := by
+    scanLinesGo cur (l ++ nl :: rest) = dropCR (cur.reverse ++ l) :: scanLinesGo [] rest := by
   induction l generalizing cur with
   | nil => simp [scanLinesGo]
   | cons c l ih =>
